@@ -172,6 +172,14 @@ func (c *Counter) Add(n int64) {
 					state = c.state.load()
 				}
 				debugPrintf("Add %q += %d: nil extra=%d\n", c.name, n, state.extra())
+				if c.file.current.Load() != nil {
+					// c.ptr is nil although a file is mapped: the file was
+					// opened, or the pointer was refreshed with nothing to
+					// flush, after the last lookup. Clear havePtr so that
+					// the last reader refreshes c.ptr and flushes extra,
+					// instead of leaving it in memory until the next rotation.
+					c.invalidate()
+				}
 			} else {
 				sum := c.add(uint64(n))
 				debugPrintf("Add %q += %d: count=%d\n", c.name, n, sum)
@@ -251,6 +259,14 @@ func (c *Counter) releaseLock(state counterStateBits) {
 				c.ptr = c.file.lookup(c.name)
 				debugPrintf("releaseLock %s: ptr=%v\n", c.name, c.ptr)
 			}
+		}
+
+		if state.extra() != 0 && c.ptr.count == nil && c.file.current.Load() != nil {
+			// An amount was added, or the file was opened, after the
+			// pointer was last refreshed: look it up now rather than
+			// leaving the amount in memory until the next rotation.
+			c.ptr = c.file.lookup(c.name)
+			debugPrintf("releaseLock %s: late ptr=%v\n", c.name, c.ptr)
 		}
 
 		if extra := state.extra(); extra != 0 && c.ptr.count != nil {
